@@ -740,6 +740,20 @@ Section Alg.
       rewrite (sel_put ws k s Hnd Hrs Hk). rewrite (map_subwires sg W ws Hr'). fold s. f_equal.
       apply (amp_ext psi). intros q. unfold s. apply upd_put; assumption.
   Qed.
+  (* projective measurement with a recorded outcome: keep the amplitudes of the assignments in
+     which qubit q has the value b (unnormalised post-measurement state; its squared norm is the
+     probability of that outcome) *)
+  Definition proj_q (q : Z) (b : bool) (psi : qstate) : qstate.
+  Proof.
+    refine (mkQ (fun sg => if Bool.eqb (sg q) b then amp psi sg else rO) _).
+    intros sg sg' H. rewrite (H q). destruct (Bool.eqb (sg' q) b); [apply (amp_ext psi); exact H | reflexivity].
+  Defined.
+
+  Lemma proj_q_proper : forall q b x y, qeq x y -> qeq (proj_q q b x) (proj_q q b y).
+  Proof.
+    intros q b x y [p H]. exists p. intros sg. cbn [proj_q amp].
+    destruct (Bool.eqb (sg q) b); [apply H | ring].
+  Qed.
 End Alg.
 
 (* ---- rotation operators as total functions of the immediates: the exact matrix on
